@@ -12,7 +12,9 @@
      doc.asms    assembly designs   [name (words), spec (specifier), blocks (indices into doc.blocks = YAML anchors),
                                      height, mesh, xs (one entry per block), mods: material modifications
                                      [scope ("" = whole block | component name), key, vals (<<n,d>> or <<>> = blank)]]
-     doc.grids   grid designs       [name, geom, dom (symmetry domain), mode ("map" | "cells"), text (token rows), cells]
+     doc.grids   grid designs       [name, geom, dom (symmetry domain), mode ("map" | "cells"), text (token rows), cells,
+                                     bounds (theta-R-Z only: <<theta bounds, r bounds>>, hundredths of rad / cm; cell <<i, j>> =
+                                     <<theta interval, r interval>>)]
      doc.core    name of the grid of the core system
    `fam` names the family of documents explored (it fixes the base document and which edits are enabled), `act` is the
    last edit.  Every reachable state is one document; the actions are EDITS of the text, one per kind of choice the
@@ -38,6 +40,19 @@
    Compositions are stated in units that need no atomic weights: number densities as given ("nd"), mass density per
    nuclide rho*w ("mf" with density), number fractions and total mass density ("nf"), mass fractions (isotopics on a
    library material), enrichment m235/(m235+m238) and Zr mass fraction (UZr with U235_wt_frac / ZR_wt_frac).
+   Which code each part of the reading is bound to (props/c18.py renders the document, loads it with
+   Blueprints.load and builds it with reactors.factory; harness/gen_blueprints.py projects the result):
+     ExpComp / Resolve / links   componentBlueprint.ComponentBlueprint.construct, _conformKwargs; Component.resolveLinkedDims
+     ExpComposition              componentBlueprint._constructMaterial; isotopicOptions.CustomIsotopic._initializeMassFracs / apply;
+                                 UZr.applyInputParams via AssemblyBlueprint._createBlock -> BlockBlueprint._filterMaterialInput
+     PinCells / MultOf           blockBlueprint.BlockBlueprint.construct; gridBlueprint.GridBlueprint.getLocators / getMultiLocator
+     ExpBlock / ExpAsm           assemblyBlueprint.AssemblyBlueprint._constructAssembly / _createBlock; Assembly.calculateZCoords
+     CellsOf / Expected.core     gridBlueprint.GridBlueprint._readGridContents(Lattice); reactorBlueprint.SystemBlueprint._loadComposites;
+                                 cores.Core.add / processLoading (bookkeeping: children, lookups by name and locator, axial mesh)
+     Verdict                     AssemblyBlueprint._checkParamConsistency (UnequalLists); Component._checkNegativeArea/_checkNegativeVolume,
+                                 DerivedShape volume (Overlap); Blueprints._prepConstruction / constructAssem, resolveLinkedDims,
+                                 CustomIsotopics.apply, BlockBlueprint._getGridDesign (UnknownSpecifier); yamlize KeyedList loading
+                                 (DuplicateName -- armi does NOT refuse these today, see the findings of the check)
    NOT modelled (documents avoiding them): cyclic links, cells on the 120-degree edge of a third core (armi removes
    them on purpose), elemental entries in custom isotopics (expanded with library abundances), component groups.  *)
 EXTENDS AsciiMapDefs, Rational, Json
@@ -74,7 +89,8 @@ FlagsOf(words) == {FlagTable[w] : w \in {x \in Rng(words) : x \in DOMAIN FlagTab
 (* ============================================ components ============================================ *)
 DimsOfShape == [Circle |-> {"od", "id", "mult"}, Hexagon |-> {"op", "ip", "mult"},
                 Rectangle |-> {"lengthOuter", "lengthInner", "widthOuter", "widthInner", "mult"},
-                Square |-> {"widthOuter", "widthInner", "mult"}, DerivedShape |-> {}]
+                Square |-> {"widthOuter", "widthInner", "mult"}, DerivedShape |-> {},
+                RadialSegment |-> {"inner_radius", "outer_radius", "inner_theta", "outer_theta", "height", "mult"}]
 Comp(name, shape, mat, ti, th, dims) == [name |-> name, shape |-> shape, mat |-> mat, ti |-> ti, th |-> th,
                                          iso |-> "", lat |-> <<>>, dims |-> dims]
 Solid(mat) == mat \notin {"Sodium", "Void", "Air"}
@@ -107,6 +123,7 @@ NegativeArea(B, c) ==
     ELSE IF c.shape = "Square" THEN Res(B, c.name, "widthInner") > Res(B, c.name, "widthOuter")
     ELSE IF c.shape = "Rectangle" THEN Res(B, c.name, "lengthInner") * Res(B, c.name, "widthInner")
                                         > Res(B, c.name, "lengthOuter") * Res(B, c.name, "widthOuter")
+    ELSE IF c.shape = "RadialSegment" THEN Res(B, c.name, "inner_radius") > Res(B, c.name, "outer_radius")
     ELSE FALSE
 \* Does the block hold its pins?  Exact areas need pi and sqrt(3); integer bounds decide the clear cases and the
 \* explored documents are clear cases (Modelled).  Units 1e-4 cm^2.  11/14 > pi/4 > 3/4 and 7/8 > sqrt(3)/2 > 6/7.
@@ -120,10 +137,12 @@ HexRoom(B)  == Res(B, Outer(B).name, "ip") * Res(B, Outer(B).name, "ip")
 RectRoom(B) == IF Outer(B).shape = "Rectangle" THEN Res(B, Outer(B).name, "lengthInner") * Res(B, Outer(B).name, "widthInner")
                ELSE Res(B, Outer(B).name, "widthInner") * Res(B, Outer(B).name, "widthInner")
 CertainlyFits(B) ==
-    IF Outer(B).shape = "Hexagon" THEN 11 * QCirc(B) + 14 * QSqr(B) <= 12 * HexRoom(B)
+    IF Outer(B).shape = "RadialSegment" THEN Inner(B) = {}
+    ELSE IF Outer(B).shape = "Hexagon" THEN 11 * QCirc(B) + 14 * QSqr(B) <= 12 * HexRoom(B)
     ELSE 11 * QCirc(B) + 14 * QSqr(B) <= 14 * RectRoom(B)
 CertainlyExceeds(B) ==
-    IF Outer(B).shape = "Hexagon" THEN 6 * QCirc(B) + 8 * QSqr(B) > 7 * HexRoom(B)
+    IF Outer(B).shape = "RadialSegment" THEN FALSE
+    ELSE IF Outer(B).shape = "Hexagon" THEN 6 * QCirc(B) + 8 * QSqr(B) > 7 * HexRoom(B)
     ELSE 3 * QCirc(B) + 4 * QSqr(B) > 4 * RectRoom(B)
 
 (* ============================================ grids ============================================ *)
@@ -301,7 +320,8 @@ Slug   == Comp("slug", "Circle", "HT9", 25, 450, [od |-> Num(300), id |-> Num(0)
 Blk(name, comps) == [name |-> name, grid |-> "", comps |-> comps]
 Asm(name, spec, blocks, height, mesh, xs) == [name |-> name, spec |-> spec, blocks |-> blocks, height |-> height,
                                               mesh |-> mesh, xs |-> xs, mods |-> <<>>]
-CellsGrid(name, geom, dom, cells) == [name |-> name, geom |-> geom, dom |-> dom, mode |-> "cells", text |-> <<>>, cells |-> cells]
+CellsGrid(name, geom, dom, cells) == [name |-> name, geom |-> geom, dom |-> dom, mode |-> "cells", text |-> <<>>, cells |-> cells,
+                                      bounds |-> IF geom = "thetarz" THEN << <<0, 78>>, <<0, 500, 1000, 1500>> >> ELSE <<>>]
 OneCell == CellsGrid("core", "hex", "full", << <<0, 0, "A">> >>)
 
 MixMF == [name |-> "mix", fmt |-> "mf", dens |-> <<10, 1>>, vec |-> << <<"U235", <<1, 4>> >>, <<"U238", <<3, 4>> >> >>]
@@ -327,15 +347,18 @@ BaseStack == [iso |-> <<>>,
 PFuel  == [Fuel EXCEPT !.lat = <<"1">>, !.dims["mult"] = NoDim]
 PClad  == [Clad EXCEPT !.lat = <<"1">>, !.dims["mult"] = NoDim, !.dims["id"] = Lnk("fuel", "od")]
 PGuide == [Comp("guide", "Circle", "HT9", 25, 450, [od |-> Num(70), id |-> Num(50), mult |-> NoDim]) EXCEPT !.lat = <<"2">>]
-PinGrid(geom) == [name |-> "pins", geom |-> geom, dom |-> "full", mode |-> "cells", text |-> <<>>, cells |-> << <<0, 0, "1">> >>]
+PinGrid(geom) == CellsGrid("pins", geom, "full", << <<0, 0, "1">> >>)
 BasePins == [iso |-> <<>>, blocks |-> << [Blk(<<"fuel">>, <<PFuel, PClad, PGuide, Cool, Duct>>) EXCEPT !.grid = "pins"] >>,
              asms |-> << Asm(<<"fuel", "a">>, "A", <<1>>, <<10>>, <<1>>, <<"A">>) >>,
              grids |-> <<OneCell, PinGrid("hex_corners_up")>>, core |-> "core"]
 \* "core": placement of two assembly designs on core grids of every geometry
 CoreAsms(outer) == << Asm(<<"fuel", "a">>, "A", <<1, 2>>, <<10, 20>>, <<1, 2>>, <<"A", "B">>),
                       Asm(<<"shield", "b">>, "B", <<2, 2>>, <<10, 20>>, <<2, 1>>, <<"C", "D">>) >>
+Wedge(name, mat, r0, r1) == Comp(name, "RadialSegment", mat, 25, 25, [inner_radius |-> Num(r0), outer_radius |-> Num(r1), inner_theta |-> Num(0),
+                                                                     outer_theta |-> Num(78), height |-> Num(1000), mult |-> Num(1)])
 CoreStart(geom, dom) ==
-    IF geom = "cartesian" THEN
+    IF geom = "thetarz" THEN << <<0, 0, "A">>, <<0, 1, "B">> >>
+    ELSE IF geom = "cartesian" THEN
         (IF dom = "full" THEN << <<-1, -1, "A">>, <<0, -1, "B">>, <<-1, 0, "B">>, <<0, 0, "A">> >>
          ELSE << <<0, 0, "A">>, <<1, 0, "B">>, <<0, 1, "B">> >>)
     ELSE IF dom = "third" THEN << <<0, 0, "A">>, <<1, 0, "B">>, <<2, -1, "A">>, <<1, 1, "B">> >>
@@ -343,10 +366,12 @@ CoreStart(geom, dom) ==
     ELSE << <<0, 0, "A">>, <<1, 0, "B">>, <<0, -1, "A">> >>
 BaseCore(geom, dom) ==
     LET outer == IF geom = "cartesian" THEN Can ELSE Duct IN
-    [iso |-> <<>>, blocks |-> << Blk(<<"fuel">>, <<Fuel, Cool, outer>>), Blk(<<"shield">>, <<Slug, Cool, outer>>) >>,
+    [iso |-> <<>>, blocks |-> IF geom = "thetarz" THEN << Blk(<<"fuel">>, <<Wedge("fuel", "UZr", 0, 500)>>), Blk(<<"shield">>, <<Wedge("slug", "HT9", 500, 1000)>>) >>
+                              ELSE << Blk(<<"fuel">>, <<Fuel, Cool, outer>>), Blk(<<"shield">>, <<Slug, Cool, outer>>) >>,
      asms |-> CoreAsms(outer),
      grids |-> << CellsGrid("core", geom, dom, CoreStart(geom, dom)) >>, core |-> "core"]
-CoreDesigns == {<<"hex", "full">>, <<"hex", "third">>, <<"hex_corners_up", "full">>, <<"cartesian", "full">>, <<"cartesian", "quarter">>}
+MapDesigns == {<<"hex", "full">>, <<"hex", "third">>, <<"hex_corners_up", "full">>, <<"cartesian", "full">>, <<"cartesian", "quarter">>}
+CoreDesigns == MapDesigns \cup {<<"thetarz", "eighth">>}          \* a theta-R-Z grid has no text map
 
 (* ============================================ edits ============================================ *)
 PinNames == {"fuel", "clad", "liner"}
@@ -512,7 +537,8 @@ PinGridName(gn) ==
     /\ act' = [n |-> "PinGridName", g |-> gn]
 
 \* ---- core lattice ("core") ----
-CoreUniverse(gr) == IF gr.geom = "cartesian" THEN (IF gr.dom = "full" THEN (-1..1) \X (-1..1) ELSE (0..2) \X (0..2))
+CoreUniverse(gr) == IF gr.geom = "thetarz" THEN {0} \X (0..2)
+                    ELSE IF gr.geom = "cartesian" THEN (IF gr.dom = "full" THEN (-1..1) \X (-1..1) ELSE (0..2) \X (0..2))
                     ELSE HexCells(2)
 \* the cells a text map of the design can name (after centring), given a candidate set of grid cells
 MapIndex(gr, S) == IF gr.geom = "cartesian" /\ gr.dom = "full"
@@ -533,7 +559,7 @@ Bases(f) == IF f = "links" THEN {BaseLinks}
             ELSE IF f = "comp" THEN {BaseComp}
             ELSE IF f = "stack" THEN {BaseStack}
             ELSE IF f = "pins" THEN {BasePins}
-            ELSE {BaseCore(gd[1], gd[2]) : gd \in CoreDesigns} \cup {MapVariant(BaseCore(gd[1], gd[2])) : gd \in CoreDesigns}
+            ELSE {BaseCore(gd[1], gd[2]) : gd \in CoreDesigns} \cup {MapVariant(BaseCore(gd[1], gd[2])) : gd \in MapDesigns}
 
 Init == /\ fam \in Families
         /\ doc \in Bases(fam)
@@ -563,7 +589,7 @@ Unplace(x) ==
                              !.grids[1].text = IF gr.mode = "map" THEN Redraw(gr, g2) ELSE <<>>]
     /\ act' = [n |-> "Unplace", x |-> x]
 AsMap ==
-    /\ fam = "core" /\ doc.grids[1].mode = "cells"
+    /\ fam = "core" /\ doc.grids[1].mode = "cells" /\ doc.grids[1].geom # "thetarz"
     /\ LET gr == doc.grids[1]  f == CellsOf(gr) IN
        /\ Mappable(gr, f)
        /\ doc' = [doc EXCEPT !.grids[1].mode = "map", !.grids[1].text = Redraw(gr, f)]
